@@ -24,7 +24,7 @@ const c15Resend = 200 * time.Millisecond
 func TestVerifC15(t *testing.T) {
 	synctest.Test(t, func(t *testing.T) {
 		// topic t/u; "t" (a level-prefix of the other filters) and "x" do not match it
-		filters := []string{"t/u", "t/+", "#", "t", "x"}
+		filters := []string{"t/u", "t/+", "#", "t/u/#", "t", "x"} // t/u/# matches its parent level t/u
 		matches := func(f string) bool { return f != "x" && f != "t" }
 		var jobs []mc.Job
 
